@@ -51,6 +51,11 @@ T1=$(date +%s)
 EXECS=$(cat "$WORK"/fuzz-*.log 2>/dev/null | grep -a "stat::number_of_executed_units" | awk '{s+=$2} END {print s+0}')
 COV=$(cat "$WORK"/fuzz-*.log 2>/dev/null | grep -a " cov: " | sed 's/.* cov: \([0-9]*\).*/\1/' | sort -n | tail -1)
 CORPUS=$(ls "$WORK/corpus" | wc -l)
+# libFuzzer also saves units that merely took long ("slow-unit-*", more than 10 s under ASan on a loaded machine): they are
+# kept apart and reported, but they are not crashes
+mkdir -p "$WORK/slow"
+mv "$WORK"/artifacts/slow-unit-* "$WORK/slow/" 2>/dev/null
+SLOW=$(ls "$WORK/slow" 2>/dev/null | wc -l)
 ARTS=$(ls "$WORK/artifacts" 2>/dev/null | wc -l)
 # fold the campaign's numbers into the evidence file the harness has just written
 EV="$VERIF/evidence/$ID.json"
@@ -59,7 +64,7 @@ if [ -f "$EV" ]; then
      '.coverage.fuzz = {engine: "libFuzzer (cargo-fuzz, ASan, overflow checks, debug assertions)", target: $target, executions: $execs, edge_coverage: $cov, corpus_files: $corpus, crash_artifacts: $arts, workers: $jobs, wall_s: $secs} | .coverage.evaluations_including_fuzz = (.coverage.evaluations + $execs)' \
      "$EV" > "$EV.tmp" && mv "$EV.tmp" "$EV"
 fi
-echo "  fuzz $T for $ID: executions=${EXECS:-0} cov=${COV:-0} corpus=$CORPUS artifacts=$ARTS wall=$((T1-T0))s" >&2
+echo "  fuzz $T for $ID: executions=${EXECS:-0} cov=${COV:-0} corpus=$CORPUS artifacts=$ARTS slow_units=$SLOW wall=$((T1-T0))s" >&2
 if [ "$ARTS" = 0 ]; then
   [ "$FRC" = 124 ] && { echo "INCONCLUSIVE $ID: fuzz campaign hit the watchdog" >&2; exit 2; }
   exit 0
